@@ -494,6 +494,8 @@ def part_loader(ctx):
         for a in L:
             for c in L:
                 trace.append((int(a[0][0][0]), int(c[0][0][0])))
+                if len(trace) > 40:          # a loader that never terminates must not hang the check
+                    raise RuntimeError("nested loops did not terminate within 40 inner iterations")
     except Exception as ex:      # judged elsewhere (the loop histories); here only recorded
         trace.append("raised %s" % type(ex).__name__)
     ctx.extra["nested_for_loops_over_one_loader"] = {
